@@ -27,6 +27,8 @@ func c08Program(r *Run, g *G, id int, hostile bool) []string {
 	add("import math")
 	add("import time")
 	add("import builtins")
+	// contexts made without search paths (see c08NewCtx) find the shared source module this way
+	add("if C08DIR not in sys.path:\n    sys.path.append(C08DIR)")
 	add("import shared_mod")
 	cands := []string{
 		fmt.Sprintf("X = %d", id),
@@ -46,6 +48,16 @@ func c08Program(r *Run, g *G, id int, hostile bool) []string {
 		fmt.Sprintf("sys.path = ['only%d']", id),
 		fmt.Sprintf("del builtins.divmod"),
 		fmt.Sprintf("sys.modules_probe = %d", id),
+		// errors of compilation are objects too: one context's SyntaxError must not turn into another's
+		fmt.Sprintf("try:\n    compile('x%d = (\\n', 'file%d', 'exec')\nexcept SyntaxError as _e:\n    ERR1 = _e", id, id),
+		fmt.Sprintf("try:\n    eval('\\n' * %d + '%d +* 2')\nexcept SyntaxError as _e:\n    ERR2 = _e", id%7, id),
+		fmt.Sprintf("try:\n    exec('def f%d(:\\n  pass\\n')\nexcept SyntaxError as _e:\n    ERR3 = _e", id),
+		// ... and so are the exceptions the runtime raises: an attribute put on a caught one stays in this context
+		fmt.Sprintf("try:\n    1 / 0\nexcept ZeroDivisionError as _e:\n    _e.tag = %d", id),
+		fmt.Sprintf("try:\n    1.5 %% 0\nexcept ZeroDivisionError as _e:\n    _e.tag = %d\n    _e.args = (%d,)", id, id),
+		fmt.Sprintf("try:\n    1 << -1\nexcept ValueError as _e:\n    _e.tag = %d", id),
+		fmt.Sprintf("try:\n    math.sqrt(-1)\nexcept ValueError as _e:\n    _e.tag = %d", id),
+		fmt.Sprintf("try:\n    float(2 ** 2000)\nexcept OverflowError as _e:\n    _e.tag = %d", id),
 	}
 	if hostile {
 		cands = append(cands, fmt.Sprintf("try:\n    list.foo = %d\nexcept TypeError:\n    pass", id), fmt.Sprintf("try:\n    int.x = %d\nexcept TypeError:\n    pass", id),
@@ -71,14 +83,24 @@ def _see(f):
     except AttributeError:
         _res.append('AttributeError')
     except Exception:
-        _res.append('Exception')`
+        _res.append('Exception')
+def _caught(f, cls):
+    try:
+        f()
+    except cls as e:
+        return (getattr(e, 'tag', None), e.args)`
 	add(view)
 	for _, e := range []string{"X", "sys.path", "sys.argv", "sys.myattr", "math.verif", "math.pi > 3 and math.pi < 4 or math.pi", "time.verif", "shared_mod.counter", "shared_mod.items",
-		"builtins.myname", "myname", "len([1, 2])", "abs(-3)", "K.attr", "f()", "divmod(7, 2)", "sys.modules_probe", "list.foo", "int.x", "(5).x", "KeyError.y", "[].foo"} {
+		"builtins.myname", "myname", "len([1, 2])", "abs(-3)", "K.attr", "f()", "divmod(7, 2)", "sys.modules_probe", "list.foo", "int.x", "(5).x", "KeyError.y", "[].foo",
+		"_caught(lambda: 1 / 0, ZeroDivisionError)", "_caught(lambda: 1.5 % 0, ZeroDivisionError)", "_caught(lambda: 1 << -1, ValueError)", "_caught(lambda: math.sqrt(-1), ValueError)",
+		"_caught(lambda: float(2 ** 2000), OverflowError)", "_caught(lambda: 2.5 // 0, ZeroDivisionError)", "_caught(lambda: divmod(3, 0), ZeroDivisionError)",
+		"(ERR1.filename, ERR1.lineno, ERR1.offset, ERR1.msg, ERR1.args)", "(ERR2.filename, ERR2.lineno, ERR2.offset, ERR2.msg)", "(ERR3.filename, ERR3.lineno, ERR3.msg, ERR1 is ERR3, ERR2 is ERR3)"} {
 		add("_see(lambda: " + e + ")")
 	}
 	return st
 }
+
+var c08ModSeq int
 
 type c08Ctx struct {
 	ctx py.Context
@@ -86,11 +108,18 @@ type c08Ctx struct {
 }
 
 func c08NewCtx(dir string, id int) (*c08Ctx, error) {
-	ctx, _ := NewCtx([]string{dir}, []string{fmt.Sprintf("initial%d", id)})
+	// context options vary with the program's identity: two thirds of the contexts are made with no
+	// search paths and no arguments (ContextOpts{}), the rest with both
+	paths, args := []string{dir}, []string{fmt.Sprintf("initial%d", id)}
+	if (id/11)%3 != 0 {
+		paths, args = nil, nil
+	}
+	ctx, _ := NewCtx(paths, args)
 	mod, err := ctx.Store().NewModule(ctx, &py.ModuleImpl{Info: py.ModuleInfo{FileDesc: "<c08>"}})
 	if err != nil {
 		return nil, err
 	}
+	mod.Globals["C08DIR"] = py.String(dir)
 	return &c08Ctx{ctx, mod}, nil
 }
 
@@ -326,6 +355,43 @@ func TestC08Race(t *testing.T) {
 					rt.Fatalf("C08 shared code object")
 				}
 				break
+			}
+		}
+		// one embedder-registered module implementation carrying source text, first imported by many contexts at once
+		{
+			c08ModSeq++
+			name := fmt.Sprintf("verifsrcmod%d_%d", os.Getpid(), c08ModSeq)
+			py.RegisterModule(&py.ModuleImpl{Info: py.ModuleInfo{Name: name, FileDesc: "<" + name + ">"}, CodeSrc: "state = []\ndef add(x):\n    state.append(x)\n    return state\n"})
+			shared := &py.ModuleImpl{Info: py.ModuleInfo{Name: name + "_direct", FileDesc: "<direct>"}, CodeSrc: "state = [0]\n"}
+			var wg3 sync.WaitGroup
+			outs3 := make([]string, 8)
+			for i := 0; i < 8; i++ {
+				wg3.Add(1)
+				go func(i int) {
+					defer wg3.Done()
+					c, err := c08NewCtx(dir, i)
+					if err != nil {
+						return
+					}
+					defer c.ctx.Close()
+					c.runStmt(fmt.Sprintf("import %s as sm\n_acc = list(sm.add(%d))", name, i))
+					if m, err := c.ctx.ModuleInit(shared); err == nil {
+						c.mod.Globals["_direct"] = m.Globals["state"]
+						c.runStmt(fmt.Sprintf("_direct.append(%d)\n_acc.append(list(_direct))", i))
+					}
+					outs3[i] = Enc(c.mod.Globals["_acc"])
+				}(i)
+			}
+			wg3.Wait()
+			r.Count("registered-source-module", true)
+			r.Class("registered-source-module")
+			for i := range outs3 {
+				if want := fmt.Sprintf("l[i%d,l[i0,i%d]]", i, i); outs3[i] != want {
+					if !r.Mismatch(&Case{Kind: "c08", Sig: "registered-source-module", Program: "a registered ModuleImpl with CodeSrc imported by 8 contexts at once", Expected: want, Actual: outs3[i]}) {
+						rt.Fatalf("C08 registered source module")
+					}
+					break
+				}
 			}
 		}
 		// two REPLs on two contexts at once
